@@ -1,4 +1,5 @@
 import GoatProofs.Lemmas.C13Decode
+import GoatProofs.Lemmas.C13OrderB
 /-
 C13 — Ed448 signing and verification are exactly RFC 8032 Ed448.
 -/
@@ -714,6 +715,66 @@ theorem verify_sign_of_assoc (hp : Nat.Prime q) (hassoc : EdwardsAssoc)
     (hsg : (sign leanOps (seed ++ pub) msg).run o = .ok sg) :
     (verify leanOps pub msg sg).run o = .ok true :=
   verify_sign hp (EdwardsGroup.ofAssoc hp hassoc) (order_B_of_smul _ hLB) o seed msg pub sg hs hpub hsg
+
+/-! ## closed forms: NO hypothesis left
+
+p is prime (`GoatProofs.Primes.p448_prime`), the Edwards law is associative
+(`C16Pt.edwardsAssoc`), so the curve points are a group (`C16Pt.theGroup`), and [L]B = 0
+(`smul_L_B`, one projective kernel evaluation).  The theorems of this file, with every hypothesis
+discharged: -/
+
+/-- the base point has order dividing L -/
+theorem order_B : L • theGroup.B = 0 := order_B_of_smul theGroup (smul_L_B q_prime)
+
+theorem decodePoint_iff_closed (b : Bytes) (a : AffinePoint) :
+    Spec.RFC8032.decodePoint b = some a ↔ OnCurve a ∧ b = Spec.RFC8032.encodePoint a :=
+  decodePoint_iff q_prime b a
+
+/-- KEY GENERATION = RFC 8032 §5.2.5, for every 57-octet seed and every hash oracle -/
+theorem keygen_eq_spec_closed (o : Oracle) (seed : Bytes) (hs : seed.length = 57) :
+    ∃ pub, (Spec.RFC8032.publicKey seed).run o = .ok pub ∧
+      (newKeyFromSeed leanOps seed).run o = .ok (seed ++ pub) :=
+  keygen_eq_spec q_prime theGroup order_B o seed hs
+
+/-- SIGNING = RFC 8032 §5.2.6 (dom4(0,""), deterministic), byte for byte -/
+theorem sign_eq_spec_closed (o : Oracle) (seed msg pub : Bytes) (hs : seed.length = 57)
+    (hpub : (Spec.RFC8032.publicKey seed).run o = .ok pub) :
+    (sign leanOps (seed ++ pub) msg).run o = (Spec.RFC8032.sign seed msg []).run o :=
+  sign_eq_spec q_prime theGroup o seed msg pub hs hpub
+
+/-- VERIFICATION = RFC 8032 §5.2.7 (reading [S]B = R + [k mod L]A'), for every 57-octet public key,
+    message, signature of any length and hash oracle -/
+theorem verify_eq_spec_closed (o : Oracle) (pk msg sig : Bytes) (hpk : pk.length = 57) :
+    (verify leanOps pk msg sig).run o = (Spec.RFC8032.verify pk msg sig []).run o :=
+  verify_eq_spec q_prime theGroup o pk msg sig hpk
+
+theorem verify_iff_spec_closed (o : Oracle) (pk msg sig : Bytes) (hpk : pk.length = 57) :
+    (verify leanOps pk msg sig).run o = .ok true ↔ (Spec.RFC8032.verify pk msg sig []).run o = .ok true :=
+  verify_iff_spec q_prime theGroup o pk msg sig hpk
+
+/-- `Verify` never panics on a 57-octet public key -/
+theorem verify_total_closed (o : Oracle) (pk msg sig : Bytes) (hpk : pk.length = 57) :
+    ∃ b, (verify leanOps pk msg sig).run o = .ok b :=
+  verify_total q_prime theGroup o pk msg sig hpk
+
+theorem verify_accepts_iff_closed : type_of% (verify_accepts_iff q_prime theGroup) :=
+  verify_accepts_iff q_prime theGroup
+
+/-- an accepted signature has a canonical public key, a canonical R, length 114 and S < L -/
+theorem verify_strict_closed : type_of% (verify_strict q_prime theGroup) := verify_strict q_prime theGroup
+
+theorem verify_strict_pk_closed : type_of% (verify_strict_pk q_prime) := verify_strict_pk q_prime
+
+/-- COMPLETENESS: every signature `Sign` produces with the key pair of a seed verifies -/
+theorem verify_sign_closed (o : Oracle) (seed msg pub sg : Bytes) (hs : seed.length = 57)
+    (hpub : (Spec.RFC8032.publicKey seed).run o = .ok pub)
+    (hsg : (sign leanOps (seed ++ pub) msg).run o = .ok sg) :
+    (verify leanOps pub msg sg).run o = .ok true :=
+  verify_sign q_prime theGroup order_B o seed msg pub sg hs hpub hsg
+
+/-- the executable spec multiplication is multiplication in the Ed448 group -/
+theorem smul_eq_closed (g : theGroup.G) (k : ℕ) :
+    Spec.Edwards448.smul k (EdwardsGroup.val g) = EdwardsGroup.val (k • g) := smul_eq theGroup g k
 
 /-! ## non-vacuity -/
 
